@@ -3,6 +3,7 @@
 package vhlib
 
 import (
+	"sync"
 	"encoding/json"
 	"flag"
 	"fmt"
@@ -107,6 +108,9 @@ type Failure struct {
 	Case   interface{} `json:"case"`   // minimal failing input (replay content)
 }
 
+// one lock for all summaries: harness goroutines (stress readers, workers) record concurrently
+var sumMu sync.Mutex
+
 type Summary struct {
 	Evaluations        int            `json:"evaluations"`
 	Distinct           int            `json:"distinct_nontrivial"`
@@ -124,8 +128,14 @@ type Summary struct {
 func NewSummary(rule string) *Summary {
 	return &Summary{Rule: rule, Distribution: map[string]int{}, distinct: map[string]bool{}}
 }
-func (s *Summary) Count(key string) { s.Distribution[key]++ }
+func (s *Summary) Count(key string) {
+	sumMu.Lock()
+	defer sumMu.Unlock()
+	s.Distribution[key]++
+}
 func (s *Summary) Eval(distinctKey string, nontrivial bool) {
+	sumMu.Lock()
+	defer sumMu.Unlock()
 	s.Evaluations++
 	if nontrivial && !s.distinct[distinctKey] {
 		s.distinct[distinctKey] = true
@@ -133,11 +143,15 @@ func (s *Summary) Eval(distinctKey string, nontrivial bool) {
 	}
 }
 func (s *Summary) Sample(v interface{}) {
+	sumMu.Lock()
+	defer sumMu.Unlock()
 	if len(s.Samples) < 4 {
 		s.Samples = append(s.Samples, v)
 	}
 }
 func (s *Summary) Fail(class, detail string, c interface{}) {
+	sumMu.Lock()
+	defer sumMu.Unlock()
 	// at most 3 recorded failures per class so that one noisy class cannot hide another
 	n := 0
 	for _, f := range s.OracleFailures {
@@ -151,6 +165,8 @@ func (s *Summary) Fail(class, detail string, c interface{}) {
 	}
 }
 func (s *Summary) HarnessError(e string) {
+	sumMu.Lock()
+	defer sumMu.Unlock()
 	if len(s.HarnessErrors) < 20 {
 		s.HarnessErrors = append(s.HarnessErrors, e)
 	}
@@ -168,6 +184,8 @@ func (s *Summary) Write(dir string) {
 // WriteCaseFile writes a Coq file that evaluates `expr` (a term of type list nat or
 // list N: the indices of disagreeing cases) and prints it as M.
 func (s *Summary) WriteCaseFile(dir, name, imports, defs, expr string, ncases int) {
+	sumMu.Lock()
+	defer sumMu.Unlock()
 	var sb strings.Builder
 	sb.WriteString("(* generated by the harness: implementation observations to be compared with the model *)\n")
 	sb.WriteString(imports)
